@@ -366,7 +366,16 @@ impl<'a> R<'a> {
             let e = format!("__e{}", k);
             let src_text = self.render_expr(&s.expr);
             let head = match s.kind {
-                SourceKind::SliceIter => format!("({}).iter()", src_text),
+                SourceKind::SliceIter => {
+                    if is_place(&s.expr) {
+                        format!("({}).iter()", src_text)
+                    } else {
+                        // a temporary must outlive the loop (Rust's own `for` extends it; Verus' desugaring does not)
+                        let sv = format!("__s{}", k);
+                        out.push_str(&format!("let {} = {};\n", sv, src_text));
+                        format!("({}).iter()", sv)
+                    }
+                }
                 SourceKind::IntoIter => src_text.clone(),
                 SourceKind::Range => src_text.clone(),
                 SourceKind::Eager => {
@@ -743,6 +752,18 @@ impl<'a> R<'a> {
             head = head,
             inner = inner
         )
+    }
+}
+
+fn is_place(e: &Expr) -> bool {
+    match e {
+        Expr::Path(_) => true,
+        Expr::Field(f) => is_place(&f.base),
+        Expr::Index(i) => is_place(&i.expr),
+        Expr::Paren(p) => is_place(&p.expr),
+        Expr::Reference(r) => is_place(&r.expr),
+        Expr::Unary(u) => matches!(u.op, UnOp::Deref(_)) && is_place(&u.expr),
+        _ => false,
     }
 }
 
